@@ -95,6 +95,7 @@ type c18Pool struct {
 	intact   []bool // an unfaulted corpus file: the only kind the real vec back end is given
 	pals     []*[64]color.RGBA
 	progs    [][]world.Op
+	firstUse [][]world.Op // earlier uses of an object that lives through two uses: may start without Reset, with observers
 	cregs    *[64]color.RGBA
 	// option values built once per case and shared by every task that decodes
 	// with options (an application keeps such values around and reuses them)
@@ -209,6 +210,9 @@ func c18BuildPool(ctx *Ctx, t *tape.Tape) *c18Pool {
 	for i := 0; i < 2; i++ {
 		p.progs = append(p.progs, world.GenProgram(t, world.GenCfg{MaxItems: 5, Abstract: true, EncOnly: true, ForceReset: true, WildStops: true}))
 	}
+	for i := 0; i < 2; i++ {
+		p.firstUse = append(p.firstUse, world.GenProgram(t, world.GenCfg{MaxItems: 3, Abstract: true, EncOnly: true, ReadFirst: true, NoReset: t.Bool()}))
+	}
 	p.cregs = world.GenPalette(t)
 	p.cregs[t.Intn(64)] = color.RGBA{uint8(t.Intn(256)), uint8(t.Intn(256)), uint8(t.Intn(256)), 0}
 	idx := t.Intn(64)
@@ -242,7 +246,7 @@ func (p *c18Pool) hash() uint64 {
 	for _, c := range p.cregs {
 		h = fnvAdd(h, uint64(c.R)|uint64(c.G)<<8|uint64(c.B)<<16|uint64(c.A)<<24)
 	}
-	for _, pr := range p.progs {
+	for _, pr := range append(append([][]world.Op(nil), p.progs...), p.firstUse...) {
 		h = fnvAdd(h, hashOps(pr))
 		for i := range pr {
 			if pr[i].Pal != nil {
@@ -284,7 +288,7 @@ func c18MakeTask(t *tape.Tape, p *c18Pool) c18Task {
 	if logged {
 		suffix += " via DestinationLogger"
 	}
-	switch t.Pick(4, 2, 4, 3, 1, 2, 3, 3, 2, 1, 2, 2, 1, 1) {
+	switch t.Pick(4, 2, 4, 3, 1, 2, 3, 3, 2, 1, 2, 2, 1, 1, 2, 2) {
 	case 0:
 		return c18Task{name: "decode->Renderer->recording rasteriser" + suffix, run: func() string {
 			z := &world.RecRaster{}
@@ -434,6 +438,46 @@ func c18MakeTask(t *tape.Tape, p *c18Pool) c18Task {
 			r.SetRasterizer(&raster.RasterizerLogger{Rasterizer: z}, rect)
 			err := decode.Decode(&r, src)
 			return digestRast(z.Ops, err)
+		}}
+	case 14:
+		// one Encoder living through two uses: an earlier use that stops at a
+		// drawn call (possibly after nothing but observers on the zero value),
+		// then a whole program that begins with Reset
+		first := p.firstUse[t.Intn(len(p.firstUse))]
+		cut := t.Intn(len(first) + 1)
+		if t.Bool() && cut > 3 {
+			cut = t.Intn(4)
+		}
+		ask := t.Bool()
+		prog := p.progs[t.Intn(len(p.progs))]
+		return c18Task{name: fmt.Sprintf("Encoder through two uses (first stops after %d calls)", cut) + suffix, run: func() string {
+			var e encode.Encoder
+			tg := world.Target{Dst: wrap(&e), Enc: &e}
+			world.Run(tg, first[:cut])
+			var h1 uint64
+			if ask {
+				b, err := e.Bytes()
+				h1 = fnvAdd(fnv(b), fnv([]byte(errText(err))))
+			}
+			world.Run(tg, prog)
+			b, err := e.Bytes()
+			return fmt.Sprintf("first use %016x; err=%s %d bytes %016x", h1, errText(err), len(b), fnv(b))
+		}}
+	case 15:
+		// one Renderer decoding two shared files in a row
+		src2 := p.files[t.Intn(len(p.files))]
+		rect2 := c18Rects[t.Intn(len(c18Rects))]
+		again := t.Bool()
+		return c18Task{name: "Renderer reused for a second file" + suffix, run: func() string {
+			z := &world.RecRaster{}
+			var r render.Renderer
+			r.SetRasterizer(z, rect)
+			err1 := decode.Decode(wrap(&r), src)
+			if again {
+				r.SetRasterizer(z, rect2)
+			}
+			err2 := decode.Decode(wrap(&r), src2)
+			return digestRast(z.Ops, err1) + " second err=" + errText(err2)
 		}}
 	default:
 		vbs := []ivg.ViewBox{ivg.DefaultViewBox, {MinX: 0, MinY: 0, MaxX: 48, MaxY: 24}}
